@@ -160,6 +160,29 @@ def wl_history(ctx, rng, case, force_width=None):
                     accepted = False
                 ctx.check(not accepted, f"join of a {s.width}x{s.depth} sketch with a {w2}x{d2} sketch was accepted")
                 ctx.count("joins_with_another_shape_refused")
+            elif s.depth >= 2 and rng.random() < 0.25:
+                # a partner of the SAME shape whose hash strategy agrees with this sketch's on the first row(s) and differs further down; both
+                # strategy objects were used by shallower sketches (in legitimate joins) before.  The join must be refused.
+                from probables.hashes import default_fnv_1a as _dflt
+
+                odd_hf = gen.DerivedHash(hf or _dflt, rng.choice(["first_only", "all_but_last"]), depth_at=s.depth)
+                for strat in (odd_hf, hf or _dflt):
+                    d0 = rng.randint(1, s.depth - 1)
+                    s1, s2 = P.CountMinSketch(width=s.width, depth=d0, hash_function=strat), P.CountMinSketch(width=s.width, depth=d0, hash_function=strat)
+                    s2.add(rng.choice(keys), 1)
+                    s1.join(s2)
+                odd = cls(width=s.width, depth=s.depth, hash_function=odd_hf)
+                odd.query_type = "min"
+                for _ in range(3):
+                    odd.add(rng.choice(keys), rng.randint(1, 5))
+                case.op("join-with-a-partly-agreeing-strategy-refused")
+                try:
+                    s.join(odd)
+                    accepted = True
+                except Exception:
+                    accepted = False
+                ctx.check(not accepted, "join with a sketch whose hash strategy differs below the first row was accepted")
+                ctx.count("joins_with_a_partly_agreeing_strategy_refused")
             elif sum(true.values()) == 0 and fed and rng.random() < 0.6:
                 case.op("join-into-empty-self", fed)
                 s.join(other)
